@@ -147,6 +147,60 @@ func csmapMutators(eng *Engine, typeSuffix string, allowed map[string]bool) (vio
 	return
 }
 
+func init() {
+	// C20: every channel created by the Couchbase operation wrappers is buffered, so that a completion
+	// arriving after the waiter has gone (timeout, cancel) can always be delivered without blocking.
+	frameScans["callback-channels"] = func(eng *Engine) (viol []string, n int) {
+		for _, f := range eng.allRepoFuncs() {
+			if f.Pkg == nil || f.Pkg.Pkg.Name() != "couchbase" {
+				continue
+			}
+			root := f
+			for root.Parent() != nil {
+				root = root.Parent()
+			}
+			if funcKey(root) == "couchbase.NewCBMembership" {
+				continue // infoChan: a rendezvous channel by design (first membership info)
+			}
+			for _, b := range f.Blocks {
+				for _, in := range b.Instrs {
+					n++
+					mc, ok := in.(*ssa.MakeChan)
+					if !ok {
+						continue
+					}
+					c, isConst := mc.Size.(*ssa.Const)
+					if !isConst || c.Value == nil || c.Int64() < 1 {
+						viol = append(viol, funcKey(f)+" creates an unbuffered (or dynamically sized) channel")
+					}
+				}
+			}
+		}
+		return
+	}
+}
+
+// staticCallers reports functions that call (or take the value of) callee outside the allowed set.
+func staticCallers(eng *Engine, callee string, allowed map[string]bool) (viol []string, n int) {
+	for _, f := range eng.allRepoFuncs() {
+		for _, b := range f.Blocks {
+			for _, in := range b.Instrs {
+				n++
+				for _, op := range in.Operands(nil) {
+					fn, ok := (*op).(*ssa.Function)
+					if !ok || funcKey(fn) != callee {
+						continue
+					}
+					if !allowed[funcKey(f)] {
+						viol = append(viol, funcKey(f)+" uses "+callee)
+					}
+				}
+			}
+		}
+	}
+	return
+}
+
 func set(keys ...string) map[string]bool {
 	m := map[string]bool{}
 	for _, k := range keys {
@@ -171,7 +225,11 @@ func init() {
 		v5, n5 := csmapMutators(eng, "ConcurrentSwissMap_of_uint16_bool", set("stream.(*stream).setOffset", "stream.(*checkpoint).Load$1", "stream.(*checkpoint).Save"))
 		v, n = merge(v, n, v5, n5)
 		v6, n6 := storesToField(eng, "stream.stream", "vbIDRange", set("stream.(*stream).Open"))
-		return merge(v, n, v6, n6)
+		v, n = merge(v, n, v6, n6)
+		// a position is settled only by an acknowledgement (Ack closure), an absorbed library event
+		// (waitAndForward) or a non-document stream event (listen): these are the only callers of setOffset
+		v7, n7 := staticCallers(eng, "stream.(*stream).setOffset", set("stream.(*stream).waitAndForward$1", "stream.(*stream).waitAndForward", "stream.(*stream).listen"))
+		return merge(v, n, v7, n7)
 	}
 	// Offsets, snapshot markers and checkpoint documents are never modified after construction (C06).
 	frameScans["immutable-offsets"] = func(eng *Engine) ([]string, int) {
